@@ -73,6 +73,16 @@ Proof.
   intros Hx H Hin. unfold none_in in H. rewrite forallb_forall in H. apply H in Hin. rewrite Hx in Hin. discriminate.
 Qed.
 
+(* [lia] with ZifyBool is exponential in the number of boolean hypotheses: drop them first *)
+Ltac clear_bools := repeat match goal with H : _ = true |- _ => clear H | H : _ = false |- _ => clear H end.
+Ltac blia := clear_bools; lia.
+
+Lemma len_pos {A} (l : list A) : l <> [] -> (1 <= len l)%Z.
+Proof. destruct l as [|x l]; [congruence|]. intros _. rewrite len_cons. pose proof (len_nonneg l). lia. Qed.
+
+Lemma printable_nonspace_vis b : printable b = true -> (b =? 32) = false -> vis b = true.
+Proof. unfold printable, vis. lia. Qed.
+
 (* ------------------------------------------------------------------------------------------ *)
 (* 1. cleaning and decoding of a printable input                                                *)
 (* ------------------------------------------------------------------------------------------ *)
